@@ -1170,6 +1170,19 @@ class Unit:
                     continue
                 if r.startswith('R32('):
                     continue
+                m33 = re.match(r'R33\((\w+)\)$', r)
+                if m33:
+                    # `fn f(.., mut x: T, ..) { B }` -> `fn f(.., x_entry: T, ..) { let mut x = x_entry; B }`: the same function;
+                    # the contract can then name the argument's value at entry (Verus has no old() for by-value parameters)
+                    v = m33.group(1)
+                    mm = re.search(r'\bmut\s+%s\s*:' % v, text)
+                    if not mm:
+                        raise LostAnchor('%s: no `mut %s:` parameter (R33)' % (site, v))
+                    text = text[:mm.start()] + '%s_entry:' % v + text[mm.end():]
+                    ob = text.index('{', mm.start())
+                    text = text[:ob + 1] + ' let mut %s = %s_entry; ' % (v, v) + text[ob + 1:]
+                    self.log.add('R33(mut by-value parameter -> immutable parameter + let mut rebinding)', site, 1)
+                    continue
                 m17 = re.match(r'R17\((\w+)\)$', r)
                 if m17:
                     text = rw_R17(text, m17.group(1), site, self.log)
